@@ -19,7 +19,7 @@ def follow_alias_check(ctx, n):
         shutil.rmtree(base, ignore_errors=True)
         os.makedirs(top)
         size = rng.choice([1, 100, 5000])
-        conts = [treegen.content(rng.next(), size) for _ in range(3)]
+        conts = [bytes([65 + k]) + treegen.content(rng.next(), size)[1:] for k in range(3)]      # pairwise different, also at size 1
         dirs = ["real", "real/sub", "real/sub/deep", "other", "x"]
         for d in dirs:
             os.makedirs(os.path.join(top, d), exist_ok=True)
